@@ -156,8 +156,8 @@ def run(fx, chk, tier):
             if callee_fn is not None and (tr.startswith("ReadBox<") or p.endswith("::skip_box")) and len(t["args"]) >= 2:
                 arg = t["args"][1]
                 sid, lo, hi, prov = it.read_op(st, arg, (b, "t"))
-                if not any(r.endswith("BoxHeader::read") for r in prov):
-                    continue     # size not taken from a header (e.g. forwarded parent size)
+                if not any(r.endswith("BoxHeader::read") for r in prov) and (c07.size_derived_in(prov, sroots) or not prov or all(r == "C" for r in prov)):
+                    continue     # size not taken from the stream (forwarded parent size, an expression of it, a constant)
                 nchain += 1
                 ub = c07.derived_ub(it, st, sid) if sid is not None else None
                 key = "%s|%s(%s)" % (fn_short(fid), fn_short(p), body.op_str(arg))
